@@ -38,6 +38,7 @@ const (
 	FBodyTrunc       FaultKind = "body_trunc"  // request body ends early but cleanly (Arg selects the offset)
 	FClockJump       FaultKind = "clock_jump"  // DB clock jumps (Arg = milliseconds, may be negative)
 	FShutdown        FaultKind = "shutdown"    // internal: the run is over
+	FCancelled       FaultKind = "cancelled"   // internal: a cancellable yield ended because its context was cancelled
 )
 
 type Fault struct {
@@ -154,6 +155,13 @@ type World struct {
 	gone        map[string]chan struct{} // op id -> closed when the client of that request goes away
 	delivered   map[string]int           // op id -> bytes of a faulted body that reached the server
 	firedAt     []FaultAt
+	selfWoken   []string
+	// adminInFlight: replication Manager API calls in flight. They hold the manager's mutex across
+	// durable waits; the clock must not advance meanwhile (DESIGN.md 3.7b): a timer-driven goroutine would
+	// block on that mutex, which synctest does not count as durably blocked, and time would stop for good.
+	adminInFlight int
+	// quiet: the fault-free tail of a run (liveness phase): no deviation, delay or fault is applied
+	quiet bool
 }
 
 func NewWorld() *World {
@@ -224,6 +232,18 @@ func (w *World) Event() uint64 {
 	return w.eventCtr
 }
 
+func (w *World) holdClock() bool {
+	w.mu.Lock()
+	defer w.mu.Unlock()
+	return w.adminInFlight > 0
+}
+
+// eventCtrLocked: next event number, for callers already inside a simpg statement (db.mu held).
+func (w *World) eventCtrLocked() uint64 {
+	w.eventCtr++
+	return w.eventCtr
+}
+
 // logf appends to the deterministic event log. Only the scheduler goroutine, or the single task that
 // holds the baton, may call it.
 func (w *World) logf(format string, a ...any) {
@@ -276,7 +296,33 @@ func (w *World) park(ctx context.Context, op, note string, cond func() bool, loc
 	}
 	w.parked[key] = p
 	w.mu.Unlock()
-	return <-p.wake
+	if ctx.Value(cancellableKey) == nil {
+		return <-p.wake
+	}
+	// a yield inside code that another goroutine may be waiting for while holding a mutex (the exporter
+	// behind the batcher during Manager.StopPipeline): it gives up by itself when its context is
+	// cancelled, because the scheduler cannot run while a goroutine is blocked on that mutex
+	select {
+	case f := <-p.wake:
+		return f
+	case <-ctx.Done():
+		w.mu.Lock()
+		if w.parked[key] == p {
+			delete(w.parked, key)
+		}
+		w.selfWoken = append(w.selfWoken, key+"@"+op)
+		w.mu.Unlock()
+		return &Fault{Kind: FCancelled}
+	}
+}
+
+type cancellableKeyT struct{}
+
+var cancellableKey cancellableKeyT
+
+// Cancellable marks the context so that yields made with it end when it is cancelled.
+func Cancellable(ctx context.Context) context.Context {
+	return context.WithValue(ctx, cancellableKey, true)
 }
 
 // Spawn starts fn as a task goroutine; it first parks at a "start" yield so that the scheduler decides
@@ -367,8 +413,8 @@ func (w *World) Step() bool {
 				w.devIdx[addr] = &w.recorded.Deviations[len(w.recorded.Deviations)-1]
 			}
 		}
-		if d := w.devIdx[addr]; d != nil {
-			if d.DelayMs > 0 {
+		if d := w.devIdx[addr]; d != nil && !w.quiet {
+			if d.DelayMs > 0 && !w.holdClock() {
 				w.logf("delay %dms before %s", d.DelayMs, addr)
 				w.sleep(time.Duration(d.DelayMs) * time.Millisecond)
 				// after time passed the runnable set may have changed; recompute but keep the decision
@@ -420,6 +466,9 @@ func (w *World) Step() bool {
 
 func (w *World) decideFault(p *parkedTask) *Fault {
 	addr := fmt.Sprintf("%s#%d", p.key, p.n)
+	if w.quiet {
+		return nil
+	}
 	if f := w.faultIdx[addr]; f != nil {
 		// in replay a planned fault is applied only if the site admits it
 		for _, k := range p.kinds {
@@ -531,13 +580,24 @@ func (w *World) Crash() {
 	w.mu.Lock()
 	w.deadEpochs[w.epoch] = true
 	w.epoch++
+	var release []*parkedTask
 	for k, p := range w.parked {
 		if p.epoch < w.epoch && !strings.HasPrefix(p.key, "client:") {
-			w.abandoned = append(w.abandoned, p)
+			if strings.HasPrefix(p.key, "pipeline:") || strings.HasPrefix(p.key, "state:") || strings.HasPrefix(p.key, "exporter:") {
+				// worker-side tasks of the dead incarnation are let go with an error (their later calls
+				// are fenced): the dead Manager must not wait on them while holding its mutex
+				release = append(release, p)
+			} else {
+				w.abandoned = append(w.abandoned, p)
+			}
 			delete(w.parked, k)
 		}
 	}
 	w.mu.Unlock()
+	sort.Slice(release, func(i, j int) bool { return release[i].key < release[j].key })
+	for _, p := range release {
+		p.wake <- &Fault{Kind: FShutdown}
+	}
 	w.db.KillAll()
 	w.logf("CRASH -> epoch %d", w.epoch)
 	if w.onCrash != nil {
